@@ -10,6 +10,9 @@ directive blocks that start with `//@`:
   //@ ret (r: T)                                 name the return value
   //@ requires / ensures / recommends            clause lines follow (plain text, copied)
   //@ loop <k> invariant|decreases|body          per loop ordinal k (0-based, textual order)
+  //@ blockend <n> "text"                        hint just before the brace closing the block opened at the n-th occurrence of text
+  //@ cases "arm text" "arm text" ...            R11: one copy of the function per listed match arm (see DESIGN 9.2)
+  //@ loop <k> spec                              raw loop clauses (invariant_except_break ... invariant ... ensures ...)
   //@ entry                                      proof text inserted at function entry (structural anchor)
   //@ before <n> "<statement text>"              proof text before the n-th occurrence (textual anchor, optional hint)
   //@ end
@@ -467,6 +470,13 @@ def splice_fn(fn_text, spec, notes):
         if not ok:
             notes.append("lost hint anchor in %s: before %r (hint dropped)" % (spec.get('name'), h['text']))
             continue
+        if h.get('blockend'):
+            # just before the brace that closes the block opened by the anchor text (e.g. the end of a match arm)
+            mb = mask_noncode(body)
+            ob = idx + h['text'].rfind('{') if '{' in h['text'] else mb.find('{', idx)
+            cb = match_close(mb, ob)
+            body = body[:cb] + h['proof'].rstrip() + '\n' + body[cb:]
+            continue
         if h.get('after'):
             line_end = body.find('\n', idx)
             line_end = len(body) if line_end < 0 else line_end
@@ -488,6 +498,9 @@ def splice_fn(fn_text, spec, notes):
             k = _loop_body_open(mb, heads[ordinal])
             inv = loops[ordinal]
             ins = ''
+            if inv.get('spec'):
+                # raw loop clauses (invariant_except_break / invariant / ensures), in Verus' order
+                ins += '\n' + inv['spec'].rstrip().rstrip(',') + ','
             if inv.get('invariant'):
                 ins += '\n        invariant\n' + inv['invariant'].rstrip().rstrip(',') + ','
             if inv.get('decreases'):
@@ -682,9 +695,11 @@ def process_template(path, name=None):
                             raise ExtractError("bad slice-range directive: %s" % d2)
                         spec.setdefault('slices', []).append({'start': sm.group(1), 'header': sm.group(2), 'repl': sm.group(3), 'forbid': sm.group(4).split()})
                         cur = None
-                    elif d2.startswith('before ') or d2.startswith('after '):
-                        bm = re.match(r'(before|after)\s+(\d+)\s+"(.*)"\s*$', d2)
-                        h = {'occ': int(bm.group(2)), 'text': bm.group(3), 'proof': '', 'after': bm.group(1) == 'after'}
+                    elif d2.startswith('cases '):
+                        spec['cases'] = re.findall(r'"([^"]*)"', d2); cur = None
+                    elif d2.startswith('before ') or d2.startswith('after ') or d2.startswith('blockend '):
+                        bm = re.match(r'(before|after|blockend)\s+(\d+)\s+"(.*)"\s*$', d2)
+                        h = {'occ': int(bm.group(2)), 'text': bm.group(3), 'proof': '', 'after': bm.group(1) == 'after', 'blockend': bm.group(1) == 'blockend'}
                         spec['before'].append(h); cur = ('before', h)
                     else:
                         raise ExtractError("bad directive in fn block: %s" % d2)
@@ -720,13 +735,41 @@ def process_template(path, name=None):
             if spec.get('rename'):
                 t = re.sub(r'\bfn\s+%s\b' % re.escape(fname), 'fn ' + spec['rename'], t, count=1)
                 fname = spec['rename']
-            text = splice_fn(t, spec, unit.notes)
-            out.append('// ---- extracted from %s:%d (%s)' % (rel, it.line, ipath))
-            out.append(text)
+            if spec.get('cases'):
+                # R11 case split: one copy of the function per listed match arm; in copy i the other listed arms start with
+                # `assume(false)`, i.e. copy i carries exactly the obligations of the paths through arm i (plus everything
+                # outside the match). The copies together cover every path, so together they are the proof of the one function.
+                import copy as _copy
+                cases = spec['cases']
+                for ci, arm in enumerate(cases):
+                    if t.count(arm) < 1:
+                        raise ExtractError("lost anchor: case arm %r in %s" % (arm, fname))
+                    sc = _copy.deepcopy(spec)
+                    for cj, other in enumerate(cases):
+                        if cj != ci:
+                            sc['before'].append({'occ': 1, 'text': other, 'after': True, 'blockend': False,
+                                                 'proof': '              proof { assume(false); } // R11 case split: this arm is the obligation %s_case%d\n' % (fname, cj)})
+                    cname = '%s_case%d' % (fname, ci)
+                    tc = re.sub(r'\bfn\s+%s\b' % re.escape(fname), 'fn ' + cname, t, count=1)
+                    sc['name'] = cname
+                    out.append('// ---- extracted from %s:%d (%s), R11 case %d of %d: arm %s' % (rel, it.line, ipath, ci, len(cases), arm))
+                    out.append(splice_fn(tc, sc, unit.notes))
+                    qualc = (impl_ctx + '::' + cname) if impl_ctx else cname
+                    unit.fns.append({'name': cname, 'qual': qualc, 'props': props, 'repo': '%s:%d %s' % (rel, it.line, qualc),
+                                     'external': False, 'path': ipath})
+                unit.notes.append("R11 case split of %s over %d match arms (each copy assumes the other arms away; together they cover all paths)" % (fname, len(cases)))
+                rec = None
+            else:
+                text = splice_fn(t, spec, unit.notes)
+                out.append('// ---- extracted from %s:%d (%s)' % (rel, it.line, ipath))
+                out.append(text)
             qual = (impl_ctx + '::' + fname) if impl_ctx else fname
-            rec = {'name': fname, 'qual': qual, 'props': props, 'repo': '%s:%d %s' % (rel, it.line, qual),
-                   'external': spec['external'], 'path': ipath}
-            unit.fns.append(rec)
+            if not spec.get('cases'):
+                rec = {'name': fname, 'qual': qual, 'props': props, 'repo': '%s:%d %s' % (rel, it.line, qual),
+                       'external': spec['external'], 'path': ipath}
+                unit.fns.append(rec)
+            else:
+                rec = unit.fns[-1]
             if spec['declonly']:
                 rec['external'] = True
             if spec['external']:
